@@ -415,6 +415,21 @@ class NPShim(object):
             return all(bool(e) for e in x.flat)
         return _np.all(x, axis=axis)
 
+    def isclose(self, a, b, rtol=1e-05, atol=1e-08, equal_nan=False):
+        """|a - b| <= atol + rtol |b| entry-wise; the tolerances are the IEEE doubles of the literals"""
+        if _conc(a) and _conc(b):
+            return _np.isclose(a, b, rtol=rtol, atol=atol)
+        A, B = asobj(a), asobj(b)
+        A, B = _np.broadcast_arrays(A.plain(), B.plain())
+        out = _np.empty(A.shape, dtype=object)
+        for idx in _np.ndindex(*A.shape):
+            x, y = Sc.of(A[idx]), Sc.of(B[idx])
+            out[idx] = abs(x - y) <= Sc.of(atol) + Sc.of(rtol) * abs(y)
+        return out
+
+    def allclose(self, a, b, rtol=1e-05, atol=1e-08, equal_nan=False):
+        return self.all(self.isclose(a, b, rtol=rtol, atol=atol))
+
     def any(self, x, axis=None):
         if isinstance(x, (list, tuple)):
             return any(bool(e) for e in x)
